@@ -79,6 +79,7 @@ type Config struct {
 	Trace       bool
 	SMTLog      io.Writer
 	ReverseMaps bool
+	CellRaces   bool // opt-in: happens-before race detection on memory cells written/read by the code under test (race.go)
 	Tier        int
 	Unwind      int // visits of one conditional jump with a symbolic condition per path
 	Progress    bool
@@ -146,6 +147,8 @@ type Explorer struct {
 	waitGroups map[*value]int64
 	tickers    []*tickerState
 	syncVC     map[syncKey]vclock
+	cellRace   map[*value]*cellState  // per memory cell (CellRaces)
+	targetFn   map[*ssa.Function]bool // is the function code under test (not harness, not model)?
 	pools      map[*value][]value
 	raceSeen   map[string]bool
 	probe    *Witness
